@@ -17,8 +17,15 @@ import (
 )
 
 func runSharedUSC(proto string) (impl, pred string) {
-	base := filepath.Join(os.Getenv("VERIF_WORK"), fmt.Sprintf("c18-shared-%d-%s", os.Getpid(), proto))
-	hostDir := filepath.Join(base, "host")
+	// (short names: the sockets live three directories below this one, and a Unix socket address holds 107 bytes; when the
+	// work directory itself is deep — a checkout somewhere else than /verif — the cell moves to the system's temporary directory)
+	base := filepath.Join(os.Getenv("VERIF_WORK"), fmt.Sprintf("u%d%s", os.Getpid(), proto[:1]))
+	if len(base) > 45 {
+		if d, err := os.MkdirTemp("/tmp", "gpv-u"); err == nil {
+			base = d
+		}
+	}
+	hostDir := filepath.Join(base, "h")
 	os.MkdirAll(hostDir, 0o755)
 	defer os.RemoveAll(base)
 	shared := &plugin.UnixSocketConfig{TempDir: hostDir}
@@ -30,7 +37,7 @@ func runSharedUSC(proto string) (impl, pred string) {
 	}
 	mk := func(i int) (*one, error) {
 		o := &one{}
-		plugDir := filepath.Join(base, fmt.Sprintf("plug%d", i))
+		plugDir := filepath.Join(base, fmt.Sprintf("p%d", i))
 		os.MkdirAll(plugDir, 0o755)
 		cfg := kitServeCfg{Sets: map[string]string{"3": proto}, GRPCServer: proto == "grpc"}
 		o.client = plugin.NewClient(&plugin.ClientConfig{
